@@ -663,11 +663,19 @@ func runC10(c *Ctx) {
 		switch br.kind {
 		case 0:
 			s := mk(fmt.Sprintf("b%d", b))
-			if br.failing {
+			hookFails := br.failing && f.Chance(5)
+			if br.failing && !hookFails {
 				setFail(s)
 			}
 			silent(s)
 			br.core = zapcore.NewCore(zapcore.NewJSONEncoder(encCfg()), zapcore.Lock(s), zapcore.DebugLevel)
+			if hookFails {
+				// the failure is that of a hook registered on a healthy core: the
+				// core's destination holds every entry, the hook's error is reported
+				br.mode = 5
+				br.core = zapcore.RegisterHooks(br.core, func(zapcore.Entry) error { return injErr })
+				c.R.Probe("a branch whose hook reports an error")
+			}
 		case 1:
 			a, bb := mk(fmt.Sprintf("b%d-0", b)), mk(fmt.Sprintf("b%d-1", b))
 			if br.failing {
@@ -686,6 +694,10 @@ func runC10(c *Ctx) {
 		}
 		branches = append(branches, br)
 		cores = append(cores, br.core)
+	}
+	anyHooked := false
+	for _, br := range branches {
+		anyHooked = anyHooked || br.mode == 5
 	}
 	errOut := zsim.NewSimSink(r, "errout", 1, 3)
 	r.Label(unsafe.Pointer(errOut), "errout")
@@ -716,7 +728,7 @@ func runC10(c *Ctx) {
 	for i := 0; i < nEntries; i++ {
 		e := &c10entry{id: i, task: g.Draw(nTasks)}
 		e.level = []zapcore.Level{zapcore.InfoLevel, zapcore.ErrorLevel, zapcore.DPanicLevel}[g.Weighted(3, 1, 2)]
-		e.direct = g.Chance(5)
+		e.direct = g.Chance(5) && !anyHooked // (a hooked core relies on Check to register its inner core: its own Write only runs the hooks, by design)
 		q.faults = f.Weighted(3, 4, 2, 1)
 		q.nextKey = 0
 		for j := 0; j < 1+g.Draw(5); j++ {
@@ -892,7 +904,7 @@ func runC10(c *Ctx) {
 		}
 		if e.direct {
 			for _, br := range branches {
-				if br.failing && (br.mode == 0 || br.mode == 1 || br.mode == 4) {
+				if br.failing && (br.mode == 0 || br.mode == 1 || br.mode == 4 || br.mode == 5) {
 					if hostileErr {
 						if e.err == nil {
 							c.Fail("C10: Write on a tee does not return the errors of all its failing cores", "entry %d written directly to the tee: returned nil although a branch failed", e.id)
@@ -929,7 +941,7 @@ func runC10(c *Ctx) {
 			}
 		}
 		switch {
-		case br.mode == 0 || br.mode == 1 || br.mode == 4:
+		case br.mode == 0 || br.mode == 1 || br.mode == 4 || br.mode == 5:
 			want = len(entries) - nDirect // a direct Core.Write returns its error to the caller instead
 		case br.mode == 2 && nDirect > 0:
 			continue
